@@ -421,6 +421,11 @@ func (rg *filterIPRequestGenerator) GenerateRequests(ctx context.Context, r *Ran
 			if request, ok = readRequest(ctx, requests); !ok {
 				return
 			}
+			// pass failed requests through with their original cause
+			if request.Err != nil {
+				writeRequest(ctx, out, request)
+				continue
+			}
 			contains, err := rg.excludeIPs.Contains(request.DstIP)
 			if err != nil {
 				request.Err = err
